@@ -2230,6 +2230,11 @@ func (b *BlocksHistory) Decode(d *Decoder) error {
 		return err
 	}
 
+	// the encoder refuses histories longer than MaxBlocksHistory; so must the decoder
+	if length > uint64(MaxBlocksHistory) {
+		return fmt.Errorf("BlocksHistory length %d is greater than MaxBlocksHistory %d", length, MaxBlocksHistory)
+	}
+
 	if length == 0 {
 		return nil
 	}
@@ -2286,6 +2291,11 @@ func (a *AuthPool) Decode(d *Decoder) error {
 	length, err := d.DecodeLength()
 	if err != nil {
 		return err
+	}
+
+	// the encoder refuses pools longer than AuthPoolMaxSize; so must the decoder
+	if length > uint64(AuthPoolMaxSize) {
+		return fmt.Errorf("AuthPool length %d is greater than AuthPoolMaxSize %d", length, AuthPoolMaxSize)
 	}
 
 	if length == 0 {
